@@ -302,7 +302,19 @@ def Op.side : Op → Side
   | .socket x _ | .bind x _ _ | .listen x _ _ | .connect x _ _ | .accept x _ | .sendto x _ _ _
   | .sendpdu x _ _ _ _ | .recvfrom x _ | .resolve x _ | .close x _ | .xfer x => x
 
-def apply (p : Pair) : Op → Step
+/-- socket argument of an operation -/
+def Op.sock? : Op → Option Nat
+  | .socket .. | .resolve .. | .xfer .. => none
+  | .bind _ id _ | .listen _ id _ | .connect _ id _ | .accept _ id | .sendto _ id _ _
+  | .sendpdu _ id _ _ _ | .recvfrom _ id | .close _ id => some id
+
+/-- the socket argument is a socket created earlier at that controller -/
+def Op.wf (p : Pair) (op : Op) : Bool :=
+  match op.sock? with
+  | some id => decide (id < (p.get op.side).n)
+  | none => true
+
+def applyOp (p : Pair) : Op → Step
   | .socket x k => apiSocket p x k
   | .bind x id arg => apiBind p x id arg
   | .listen x id bl => apiListen p x id bl
@@ -314,6 +326,9 @@ def apply (p : Pair) : Op → Step
   | .resolve x nm => apiResolve p x nm
   | .close x id => apiClose p x id
   | .xfer x => apiXfer p x
+
+def apply (p : Pair) (op : Op) : Step :=
+  if op.wf p then applyOp p op else throw .outOfFuel
 
 /-- run a history; the state after an abort is the state before the aborting operation -/
 def run (p : Pair) : List Op → Pair
